@@ -179,6 +179,15 @@ def oracle(case) -> core.CaseResult:
         res.nontrivial = False
         return res
     with e2e.workdir() as d:
+        if fault != "none" and fault != "config_missing" and param % 2 == 1:
+            # the faulted set-up replaces a valid one in the same directory (same file names) after that one has
+            # been run in this process: what was learnt about the old files must not be trusted for the new ones
+            r0 = e2e.run_main(build(d, base, "none", param))
+            if r0["status"] != "ok":
+                raise core.HarnessError(f"valid base {base} does not run: {r0['exc']}")
+            for f in list(d.iterdir()):
+                f.unlink()
+            res.cls("after_a_valid_run_on_the_same_paths")
         path = build(d, base, fault, param)
         r = e2e.run_main(path)
         nrec = records_on_disk(d)
